@@ -220,6 +220,10 @@ def mk(e):
         return P.Variable(e[1])
     if t == "c":
         return complex(e[1][0], e[1][1]) if isinstance(e[1], list) else e[1]
+    if t == "npc":
+        # a constant of a numpy scalar type: ["npc", "complex64", [re, im]] / ["npc", "float32", 2.5]
+        v = complex(e[2][0], e[2][1]) if isinstance(e[2], list) else e[2]
+        return getattr(np, e[1])(v)
     if t == "sub":
         return P.Variable(e[1])[mk(e[2])]
     if t in BINOPS:
@@ -1086,6 +1090,15 @@ def bounded(payload):
             for perm in itertools.permutations(range(n)):
                 consider({"part": "program", "stmts": chain[:n], "steps": 1, "order": list(perm)})
                 parts["refinement_chain_orders"] += 1
+    # constants by TYPE: complex values with a zero imaginary part, numpy scalar types (complex64 is no subclass of complex)
+    for c in (C([-4.0, 0.0]), C([0.0, 0.0]), ["npc", "complex64", [0.0, 1.0]], ["npc", "complex64", [2.0, 0.0]],
+              ["npc", "complex128", [1.0, 0.0]], ["npc", "float32", 2.5], ["npc", "float64", -1.5], ["npc", "int64", 3]):
+        consider({"part": "program", "steps": 1, "stmts": [
+            {"k": "assign", "lhs": "lam", "sub": None, "rhs": c, "loops": []},
+            {"k": "assign", "lhs": "z", "sub": None, "rhs": ["*", V("lam"), C(2.5)], "loops": []},
+            {"k": "assign", "lhs": "w", "sub": None, "rhs": ["+", V("z"), V("<dt>")], "loops": []},
+            {"k": "assign", "lhs": "u", "sub": None, "rhs": ["*", c, V("<t>")], "loops": []}]})
+        parts["typed_constant_programs"] = parts.get("typed_constant_programs", 0) + 1
     for _ in range(nprog):
         if time.time() > deadline:
             parts["random_tail_cut_by_wall_clock"] = 1
